@@ -252,6 +252,12 @@ def all_jobs():
     J.append(dict(id='stmt_forall_finalize', src='blocc/statement_forall.cpp', contract='stmt_forall.c', enforce=mg, roots=[mg], replace=[V_CLEAR], cut=[V_CLEAR, '_ZN4bloc7Context9getSymbolEj'],
                   props=['C01', 'C06', 'C07'], pretty='bloc::FORALLStatement::finalizeControl', canaries=['normal'],
                   structs=DEFAULT_STRUCTS + ['bloc::FORALLStatement', 'bloc::FORALLStatement::RT', 'bloc::Context', 'bloc::Symbol', 'bloc::Context::MemorySlot', 'bloc::VariableExpression', 'bloc::Expression']))
+    mg = '_ZN4bloc15FORALLStatement12parse_clauseERNS_6ParserERNS_7ContextEPS0_'
+    J.append(dict(id='stmt_forall_parse_clause', src='blocc/statement_forall.cpp', contract='stmt_forall_parse.c', enforce=mg, roots=[mg], replace=[],
+                  cut=['_ZN4bloc7Context9getSymbolEj', '_ZN4bloc7Context9execBeginEPKNS_9StatementE', '_ZN4bloc7Context7execEndEv', '_ZN4bloc10ExecutableC1ERNS_7ContextERKNSt7__cxx114listIPKNS_9StatementESaIS7_EEE', '_ZN4bloc10ExecutableC2ERNS_7ContextERKNSt7__cxx114listIPKNS_9StatementESaIS7_EEE'],
+                  props=['C01', 'C11'], pretty='bloc::FORALLStatement::parse_clause', canaries=['normal', 'exceptional'], unwind=12, bounded_inputs=True,
+                  unwind_why='body of at most 2 statements (stub of Parser::pop yields at most 5 tokens)',
+                  structs=DEFAULT_STRUCTS + [STD_STRING, 'bloc::FORALLStatement', 'bloc::Context', 'bloc::Symbol', 'bloc::VariableExpression', 'bloc::Expression', 'bloc::Statement', 'bloc::Executable', 'bloc::Parser', 'bloc::ParseError', 'bloc::Token']))
     # ---- C13: stream readers ----
     mg = '_ZN4bloc12StringReader4readEPNS_6ParserEPci'
     J.append(dict(id='reader_string', src='blocc/string_reader.cpp', contract='reader_string.c', enforce=mg, roots=[mg], replace=[], cut=[],
